@@ -15,6 +15,8 @@ package vconsensus
 
 import (
 	"fmt"
+	"os"
+	"strings"
 
 	"github.com/NethermindEth/juno/consensus/types"
 )
@@ -136,8 +138,17 @@ type witness struct {
 	Steps     int      `json:"steps"`
 }
 
+// VERIF_C12_AGREEMENT_ONLY=1 (drill aid, never set by run.py): every oracle
+// except agreement only counts, so that a mutant's end-to-end consequence -
+// two different commits - can be shown to be reachable and detected.
+var agreementOnly = os.Getenv("VERIF_C12_AGREEMENT_ONLY") == "1"
+
 func (s *sim) violation(class, detail string, nd *node, in msg) {
 	if s.violated {
+		return
+	}
+	if agreementOnly && !strings.HasPrefix(class, "agreement:") {
+		s.suppressed++
 		return
 	}
 	s.violated = true
@@ -443,6 +454,6 @@ func (s *sim) monCommit(nd *node, in msg, m msg) {
 			fmt.Sprintf("validator %d committed %s for height %d, validator %d committed %s", s.decider[m.h], valStr(old), m.h, nd.i, valStr(m.val)), nd, in)
 		return
 	}
-	s.decided[m.h], s.decider[m.h] = m.val, nd.i
+	s.decided[m.h], s.decider[m.h], s.decRound[m.h] = m.val, nd.i, m.r
 	s.st.commits++
 }
